@@ -3,10 +3,13 @@ import Posmint.Lemmas.ChainTx
 # C11 — Rejected transactions and read-only calls leave no trace
 -/
 namespace Posmint.Props.C11
-open Posmint.Chain Posmint.Chain.ChainTx
+open Posmint.Chain Posmint.Chain.ChainTx Posmint.Chain.F2
 
-/-- the state after the ante handler took the fee -/
-def afterFee (s : State) (t : Tx) : State := (send s (t.msg.signer s) s.feeAcc t.feeEff).getD s
+/-- the state after the ante handler took the fee: the part in the staking coin, then the part offered in the
+second denomination -/
+def afterFee (s : State) (t : Tx) : State :=
+  (send2 ((send s (t.msg.signer s) s.feeAcc t.feeEff).getD s) (t.msg.signer s) s.feeAcc t.fee2).getD
+    ((send s (t.msg.signer s) s.feeAcc t.feeEff).getD s)
 
 /-- A rejected delivered transaction leaves the state exactly as it was, or — when it passed the
 ante handler and its message handler failed — exactly as it was with the fee paid. -/
@@ -52,8 +55,9 @@ theorem fee_step (s : State) (t : Tx) (h : Inv s) (ha : anteOK s t false = true)
     s1.vals = s.vals ∧ s1.supply = s.supply ∧ s1.idx = s.idx ∧ s1.queue = s.queue ∧ s1.sign = s.sign := by
   intro s1
   obtain ⟨_, s2, hs2, h1, h2, h3, _, hfr⟩ := fee_send h.wf ha
-  have e : s1 = s2 := by simp [s1, afterFee, hs2]
+  have e : s1 = (send2 s2 (t.msg.signer s) s.feeAcc t.fee2).getD s2 := by simp [s1, afterFee, hs2]
   rw [e]
+  simp only [balOf_send2_getD, vals_send2_getD, supply_send2_getD, idx_send2_getD, queue_send2_getD, sign_send2_getD]
   refine ⟨h1, h2, h3, ?_⟩
   rw [hfr]
   simp
